@@ -268,7 +268,9 @@ func init() {
 					Repr: func(i int64) string { return fmt.Sprintf("template %q", stringByIndex(c03TmplChars, i)) }},
 			}
 			tokLens["generic+cpp"] = tokLens["csv"]
-			for _, kind := range append(append([]string{}, tokKinds...), "generic+cpp") {
+			tokLens["csv+latin1"] = tokLens["csv"]
+			tokLens["csv+wide"] = tokLens["csv"]
+			for _, kind := range append(append([]string{}, tokKindsExt...), "generic+cpp") {
 				kind := kind
 				al := tokAlphabets[kind]
 				sp = append(sp, fw.Space{Name: "tokenizer-" + kind, N: countStrings(len(al), tokLens[kind]),
